@@ -55,7 +55,7 @@ pub fn roundtrip(m: &Module, text: &str, how: &str) -> Result<(), (String, Strin
 /// Break a token stream so that the text is certainly not a module of the language.
 /// Returns (kind, broken tokens) or None if the mutation does not apply.
 pub fn mutate(toks: &[Tok], rng: &mut Rng) -> Option<(&'static str, Vec<Tok>)> {
-    let kind = rng.below(9);
+    let kind = rng.below(13);
     let mut t = toks.to_vec();
     let positions = |pred: &dyn Fn(&Tok) -> bool| -> Vec<usize> {
         toks.iter().enumerate().filter(|(_, x)| pred(x)).map(|(i, _)| i).collect()
@@ -176,6 +176,51 @@ pub fn mutate(toks: &[Tok], rng: &mut Rng) -> Option<(&'static str, Vec<Tok>)> {
             };
             t[i] = Tok::Word(big.to_string());
             Some(("integer-out-of-range", t))
+        }
+        9 | 12 => {
+            // a name where a type or a path segment was already complete: `a: u32 u32`, `use a b;`,
+            // or a stray closing angle bracket after it: `a: Foo>`
+            let is_name = |x: &Tok| matches!(x, Tok::Word(w) if w.chars().next().is_some_and(|c| c.is_alphabetic())
+                && !["pub", "fn", "type", "enum", "impl", "use", "extern", "const", "mut", "self", "vftable", "unknown", "backend", "prologue", "epilogue", "super"].contains(&w.as_str()));
+            let ps: Vec<usize> = toks
+                .iter()
+                .enumerate()
+                .filter(|(i, x)| {
+                    is_name(x)
+                        && *i > 0
+                        && (matches!(&toks[*i - 1], Tok::Punct(":") | Tok::Punct("::") | Tok::Punct("->")) || matches!(&toks[*i - 1], Tok::Word(w) if w == "use" || w == "const" || w == "mut"))
+                        && !matches!(toks.get(*i + 1), Some(Tok::Punct("<")) | Some(Tok::Punct("::")))
+                })
+                .map(|(i, _)| i)
+                .collect();
+            if ps.is_empty() {
+                return None;
+            }
+            let i = *rng.pick(&ps);
+            if kind == 9 {
+                let again = t[i].clone();
+                t.insert(i + 1, again);
+                Some(("adjacent-names", t))
+            } else {
+                t.insert(i + 1, Tok::Punct(">"));
+                Some(("stray-closing-angle", t))
+            }
+        }
+        10 => {
+            // a `use` without a path
+            t.push(Tok::Word("use".into()));
+            t.push(Tok::Punct(";"));
+            Some(("empty-use-path", t))
+        }
+        11 => {
+            // `a::::b`, or a path that starts or ends with the separator
+            let ps = positions(&|x| matches!(x, Tok::Punct("::")));
+            if ps.is_empty() {
+                return None;
+            }
+            let i = *rng.pick(&ps);
+            t.insert(i, Tok::Punct("::"));
+            Some(("doubled-path-separator", t))
         }
         _ => {
             // stray token where nothing can start or continue
